@@ -19,6 +19,16 @@ CHECKS = {
              '(C01) nor exactness of the conflict *set* beyond per-cell bookkeeping. Trusted: ' + TB,
         technique='MIR path-table extraction (custom rustc_private driver) + finite-model comparison with the specification table',
         ref='§4 C03'),
+    'C11': dict(
+        level='other',
+        text='(1) Every call handing source text to a span-producing specification parser passes the caller\'s whole text '
+             '(def-use chain of the argument contains no slicing/trimming callee), so spans index what the user wrote. '
+             '(2) For each LexFlags field (read from the ADT) name agreement is checked along the whole plumbing: header '
+             'key -> field, defaults merge, field -> RegexBuilder setter of the same name, CTLexerBuilder setter -> header key.',
+        note='Decides the span-offset clause and the "flags given are the ones in force" clause structurally. Does NOT decide '
+             'that rule splitting and escape rewriting denote the right regular language. Trusted: ' + TB,
+        technique='def-use provenance of parser inputs + name-agreement check over resolved field indices, callee names and constant strings in MIR',
+        ref='§4 C11'),
     'C12': dict(
         level='other',
         text='Over the call-graph cone of the specification parsers (%grmtools section, Yacc, lex): (1) every natural loop of '
